@@ -543,7 +543,7 @@ where
 }
 
 /// mutations of linear-code proofs (Ligero / Brakedown share the proof type); through the verification hooks
-fn mutate_lincode_proof(kind: &str, pf: &Vec<ark_poly_commit::linear_codes::LinCodePCProof<Fr, MTConfig>>, args: &[String])
+pub fn mutate_lincode_proof(kind: &str, pf: &Vec<ark_poly_commit::linear_codes::LinCodePCProof<Fr, MTConfig>>, args: &[String])
     -> Option<Vec<ark_poly_commit::linear_codes::LinCodePCProof<Fr, MTConfig>>> {
     use ark_poly_commit::linear_codes::verif_hooks as lh;
     let mut v = pf.clone();
